@@ -13,6 +13,8 @@ pub mod output;
 pub mod scanner;
 pub mod state;
 pub mod stats;
+#[cfg(feature = "verif")]
+pub mod verif_hooks;
 
 pub use error::{Result, SlocGuardError};
 
